@@ -98,6 +98,21 @@ pub fn gen_literal(rng: &mut Rng, i: u64) -> (Vec<u8>, &'static str) {
             if rng.chance(1, 2) { s.push_str(&format!("e{}", rng.range(0, 600) as i64 - 300)); }
             (s.into_bytes(), "digits") }
         2 => { let e = rng.range(0, 800) as i64 - 400; let m = *rng.pick(&["1", "9", "1.0", "9.999999999999999", "1.7976931348623157", "2.2250738585072014", "4.9", "2.4703282292062327", "2.4703282292062328"]); (format!("{}e{}", m, e).into_bytes(), "pow10") }
+        3 if rng.chance(1, 2) => { // exact midpoints that fit 19-20 significant digits, in every spelling: D e-k, positional, padded
+            let j = rng.below(9) as u32;
+            let mut m: u64 = (1u64 << 52) | (rng.next() & ((1u64 << 52) - 1));
+            let z = rng.below(30); m = (m >> z) << z;
+            if rng.chance(1, 2) { m >>= rng.below(20); }
+            let d: u128 = (2 * m as u128 + 1) * 5u128.pow(j + 1);
+            let ds = d.to_string();
+            let k = (j + 1) as usize;
+            let s = match rng.below(4) {
+                0 => format!("{}e-{}", ds, k),
+                1 => if ds.len() > k { format!("{}.{}", &ds[..ds.len() - k], &ds[ds.len() - k..]) } else { format!("0.{}{}", "0".repeat(k - ds.len()), ds) },
+                2 => format!("{}0e-{}", ds, k + 1),
+                _ => format!("{}.{}e-{}", &ds[..1], &ds[1..], k as i64 - (ds.len() as i64 - 1)),
+            };
+            (s.replace("e--", "e").into_bytes(), "halfway19") }
         3 | 4 => { // exact midpoint between two adjacent doubles, and its neighbours
             let m: u64 = (1u64 << 52) | (rng.next() & ((1u64 << 52) - 1));
             let e = rng.range(0, 160) as i32 - 110;
@@ -139,7 +154,7 @@ pub fn write_event(rng: &mut Rng, i: u64) -> J {
         0 | 1 | 2 => { // f64: every exponent, around powers of two and ten, subnormals, +-0
             let x = match rng.below(6) { 0 => f64::from_bits(rng.next()), 1 => f64::from_bits(((rng.below(2047) as u64) << 52) | (rng.next() & ((1 << 52) - 1)) | ((rng.below(2) as u64) << 63)),
                 2 => { let p = 2f64.powi(rng.range(0, 2000) as i32 - 1000); f64::from_bits(p.to_bits().wrapping_add(rng.below(3) as u64).wrapping_sub(1)) }
-                3 => { let p = 10f64.powi(rng.range(0, 600) as i32 - 300); f64::from_bits(p.to_bits().wrapping_add(rng.below(3) as u64).wrapping_sub(1)) }
+                3 => { let p = (rng.range(1, 9) as f64) * 10f64.powi(rng.range(0, 631) as i32 - 323); f64::from_bits(p.to_bits().wrapping_add(rng.below(3) as u64).wrapping_sub(1)) }
                 4 => f64::from_bits(rng.next() & 0x800f_ffff_ffff_ffff), _ => *rng.pick(&[0.0, -0.0, f64::MAX, f64::MIN_POSITIVE, 5e-324, 1.0, 0.1, 1e21, 1e-7, 123456789.0]) };
             if !x.is_finite() { return json!({"ev":"skip"}); }
             let text = sonic_rs::to_string(&x).unwrap_or_default();
@@ -158,7 +173,7 @@ pub fn write_event(rng: &mut Rng, i: u64) -> J {
         7 => match rng.below(4) { 0 => int_rt!(u8, "u8", rng.next() as u8), 1 => int_rt!(i8, "i8", rng.next() as i8), 2 => int_rt!(u16, "u16", rng.next() as u16), _ => int_rt!(i16, "i16", rng.next() as i16) },
         8 => match rng.below(2) { 0 => int_rt!(u32, "u32", rng.next() as u32), _ => int_rt!(i32, "i32", rng.next() as i32) },
         _ => { // 128-bit: the text route only (the DOM has no 128-bit numbers)
-            let x: u128 = match rng.below(3) { 0 => ((rng.next() as u128) << 64) | rng.next() as u128, 1 => u128::MAX - rng.below(3) as u128, _ => (rng.next() as u128) << rng.below(64) };
+            let x: u128 = match rng.below(5) { 0 => ((rng.next() as u128) << 64) | rng.next() as u128, 1 => u128::MAX - rng.below(3) as u128, 2 => (i128::MIN as u128).wrapping_add(rng.below(3) as u128), 3 => (i128::MAX as u128) - rng.below(3) as u128, _ => (rng.next() as u128) << rng.below(64) };
             if rng.chance(1, 2) {
                 let text = sonic_rs::to_string(&x).unwrap_or_default(); let y = sonic_rs::from_str::<u128>(&text).ok();
                 json!({"ev":"write","type":"u128","x":int_j(false, x.to_string()),"text":bytes_j(text.as_bytes()),"y": match y { Some(y) => { let mut j = int_j(false, y.to_string()); j["ok"] = json!(true); j } None => json!({"ok":false}) }})
@@ -181,7 +196,34 @@ pub fn record(args: &[String]) -> i32 {
     let mut panics = 0u64;
     let mut count = 0u64;
     let mut per_origin = HashMap::<String, u64>::new();
-    for i in 0..n {
+    if mode == "pow10grid" {
+        // every d x 10^e for d in 1..9 and e in -400..400, three spellings
+        for e in -400i32..=400 { for d in 1..=9 { for sp in 0..3 {
+            let lit = match sp { 0 => format!("{}e{}", d, e), 1 => format!("{}.0E{:+}", d, e), _ => format!("0.{}e{}", d, e + 1) };
+            let ev = parse_event(lit.as_bytes(), 0, "pow10grid");
+            if ev.to_string().contains("\"panic\":true") { panics += 1; }
+            outs[(count % shards) as usize].line(&ev);
+            count += 1;
+        } } }
+    }
+    if mode == "pow10write" {
+        // d x 10^e as f64 for every d in 1..9, e in -323..308 (and their neighbours): write, read back
+        for e in -323i32..=308 { for d in 1..=9u32 { for delta in [0i64, -1, 1] {
+            let Ok(p) = format!("{}e{}", d, e).parse::<f64>() else { continue };
+            let x = f64::from_bits((p.to_bits() as i64 + delta) as u64);
+            if !x.is_finite() { continue; }
+            let text = sonic_rs::to_string(&x).unwrap_or_default();
+            let y = sonic_rs::from_str::<f64>(&text).ok();
+            let dom = sonic_rs::to_value(&x).ok().and_then(|v| v.as_f64());
+            let dom_text = sonic_rs::to_value(&x).ok().map(|v| sonic_rs::to_string(&v).unwrap_or_default()).unwrap_or_default();
+            let ev = json!({"ev":"write","type":"f64","x":f64_fields(x),"text":bytes_j(text.as_bytes()),"dom_text":bytes_j(dom_text.as_bytes()),
+                   "y": match y { Some(y) => { let mut j = f64_fields(y); j["ok"] = json!(true); j } None => json!({"ok":false}) },
+                   "dom": match dom { Some(y) => { let mut j = f64_fields(y); j["ok"] = json!(true); j } None => json!({"ok":false}) }});
+            outs[(count % shards) as usize].line(&ev);
+            count += 1;
+        } } }
+    }
+    for i in 0..(if mode == "pow10grid" || mode == "pow10write" { 0 } else { n }) {
         let ev = if mode == "parse" {
             let (lit, origin) = gen_literal(&mut rng, i);
             inflight.set(i, &lit);
